@@ -35,6 +35,13 @@ claim("C09", "finite-domain abstract interpretation of the escaper (256 byte val
       "For every byte value the ASCII handler's output fragment is computed from the SSA and checked to be a valid JSON string fragment decoding to that byte; the main loop's three continuations are enumerated path-sensitively (handled / invalid byte / valid rune) and checked for the written slice and the index advance. Given the utf8.DecodeRuneInString contract this decides the property's never-raw-control-byte and one-U+FFFD-per-invalid-byte clauses for all byte strings.",
       NOTE_COMMON, "DESIGN.md §4 C09")
 
+claim("C07", "typestate simulation of every encoder method x token state (separator automaton), table agreement constructor<->ValueType<->Append method by kind family, AST rule over Any's type switch, must-facts for the non-finite guard, constant folding of number formats",
+      "Decides the structural conditions behind 'one valid JSON object that decodes to the logged data': key order of the layout on both ctxString paths, the comma automaton for all 13 methods x 7 states, exhaustive and kind-correct dispatch with inverse representation pairs, base-10 / shortest-round-trip number formats, no unquoted non-finite float, every buffer write sanitised. Value fidelity beyond these tables rests on strconv/encoding/json and is not decided.",
+      NOTE_COMMON, "DESIGN.md §4 C07")
+claim("C08", "sibling cross-check text encoder vs JSON encoder under tracked depth/has-written cells, event-sequence check of the header, Fourier-Motzkin bounds proof over the configured width",
+      "Decides the header shape and time layout, delegation to the embedded JSON encoder exactly when nested with reset at depth 0, formatter/escaper agreement of depth-0 tokens with the JSON tokens, the separator two-state table, and that every hot-path slice whose bounds depend on a configuration integer is in range for ALL values of that integer (the 'no configured width makes a log call fail' clause).",
+      NOTE_COMMON, "DESIGN.md §4 C08")
+
 PENDING_REASON = "check not built yet in this commit (static rule planned in DESIGN.md section 4); no claim is made until the rule exists and has been validated both ways"
 
 def main():
